@@ -23,6 +23,49 @@ func EnumPaths(fn *ssa.Function, start *Edge, withPanics bool, visit func(p Bloc
 	return EnumPathsN(fn, start, withPanics, 1, visit)
 }
 
+// EnumPathsTo enumerates the paths from the start edge to a block for which stop is true, or
+// to a Return, no edge traversed twice. The path handed to visit ends with the stop block.
+func EnumPathsTo(fn *ssa.Function, start *Edge, stop func(*ssa.BasicBlock) bool, visit func(p BlockPath)) bool {
+	count := 0
+	complete := true
+	used := map[Edge]int{}
+	var path BlockPath
+	var rec func(b *ssa.BasicBlock)
+	rec = func(b *ssa.BasicBlock) {
+		if !complete {
+			return
+		}
+		path = append(path, b)
+		defer func() { path = path[:len(path)-1] }()
+		isRet := false
+		if len(b.Instrs) > 0 {
+			_, isRet = b.Instrs[len(b.Instrs)-1].(*ssa.Return)
+		}
+		if stop(b) || isRet {
+			count++
+			if count > MaxPaths {
+				complete = false
+				return
+			}
+			visit(append(BlockPath{}, path...))
+			return
+		}
+		for k := range b.Succs {
+			e := Edge{b, k}
+			if used[e] >= 1 || constEdgeDead(e) {
+				continue
+			}
+			used[e]++
+			rec(b.Succs[k])
+			used[e]--
+		}
+	}
+	path = append(path, start.From)
+	used[*start]++
+	rec(start.To())
+	return complete
+}
+
 // EnumPathsN is EnumPaths with every CFG edge traversed at most maxUse times
 // (maxUse = 2 covers two iterations of every loop).
 func EnumPathsN(fn *ssa.Function, start *Edge, withPanics bool, maxUse int, visit func(p BlockPath, end ssa.Instruction)) bool {
